@@ -63,6 +63,16 @@ def range_rule(ctx, prop, which):
     return rows
 
 
+def rangenamed_rule(ctx, prop, which):
+    rid = "%s.rangenamed" % prop
+    rows = vt.named_range_table(ctx.facts, which)
+    table_rule(ctx, rid, "%s visit_range with a bound written as the name of a rule that is one numeric literal (RFC 8610 2.2.2.1: "
+               "`byte = 0..max-byte`, `max-byte = 255`) gives the verdict of the range with the literal in its place, for integer and "
+               "float bounds, named lower / upper / both, inclusive and exclusive (abstract evaluation, the rule list scripted)" % which.upper(),
+               40, rows, lambda r: "%s|%s|%s" % (r["bounds"], "incl" if r["incl"] else "excl", r["point"]),
+               lambda r: "%s range %s %s at %s" % (which, r["bounds"], "inclusive" if r["incl"] else "exclusive", r["point"]))
+
+
 def occur_rule(ctx, prop, which):
     rows = vt.seq_entry_table(ctx.facts, which)
     table_rule(
